@@ -826,8 +826,9 @@ impl Ctx {
                         }
                     }
                 }
-                if !b.variables.is_null() {
-                    fail(&mut self.rep, "request-body-members", "variables is not null");
+                // (the introspection documents declare no variables: `null` and `{}` say the same)
+                if !(b.variables.is_null() || b.variables.as_object().map(|m| m.is_empty()).unwrap_or(false)) {
+                    fail(&mut self.rep, "request-body-members", "variables carries values although the document declares none");
                 }
             }
         }
@@ -856,7 +857,8 @@ impl Ctx {
                 }
             }
         }
-        if !pool.iter().any(|(n, v)| n == "content-type" && v == "application/json") {
+        // (the media type; parameters such as `; charset=utf-8` would say the same)
+        if !pool.iter().any(|(n, v)| n == "content-type" && v.split(';').next().map(|m| m.trim().eq_ignore_ascii_case("application/json")).unwrap_or(false)) {
             fail(&mut self.rep, "content-type", "no `content-type: application/json`");
         }
     }
